@@ -134,6 +134,7 @@ func VHJSONLoad() {
 
 // VHHistory: D operations in a row from the constructor (see VMapHistory).
 func VHHistory() {
-	s := New[int]()
-	sets.VSetHistory(s, true, "LinkedHashSet", func() { VInv(s) })
+	init := vl.InitArgs()
+	s := New[int](init...)
+	sets.VSetHistoryFrom(s, vl.DedupFirst(init), true, "LinkedHashSet", func() { VInv(s) })
 }
